@@ -139,6 +139,18 @@ def judge(R, it, res, lean):
                     return
             else:
                 R.ambiguous += 1
+    # utilitarian share against the exact share (the model's `util`): a score that is off by more than 1e-9 cannot be relied on to agree
+    # under reordering either
+    if "util" in a and it.get("vals"):
+        for side, rr, VV in (("orig", a, it["vals"]), ("trans", b, transform(P, it["vals"], vperm, sig)[1])):
+            F = [[Fraction(x) for x in row] for row in VV]
+            tot = sum(x for row in F for x in row)
+            if tot > 0:
+                exact = [sum(row[j] for row in F) / tot for j in range(m)]
+                got = [Fraction(x) for x in rr["util"]["score"]]
+                if any(not V.rel_close(g, e, TOL9) for g, e in zip(got, exact)):
+                    R.corr_break("utilitarian score within relative 1e-9 of the exact share (model)", f"{ENTRY}: SocialWelfare.score", {"vals": VV},
+                                 rr["util"]["score"], [fr(e) for e in exact])
     # correspondence: both runs equal the (proved equivariant) model
     for name, kk in rules_for(m):
         for side, PP, key in (("orig", P, (name, "o")), ("trans", P2, (name, "t"))):
